@@ -374,6 +374,76 @@ def fixed_worker(job):
     return shard
 
 
+def afuzz_tier(ctx, seconds, known):
+    """Coverage-guided campaign: NPROC atheris children (vlib/afuzz.py), each with its own libFuzzer seed and an empty corpus."""
+    import shutil
+    import subprocess
+    import sys
+    deps = os.path.join(common.VERIF_DIR, ".deps")
+    env = dict(os.environ)
+    env["PYTHONPATH"] = os.pathsep.join([common.REPO, common.VERIF_DIR, deps])
+    probe = subprocess.run([sys.executable, "-c", "import atheris"], env=env, capture_output=True)
+    if probe.returncode != 0:
+        subprocess.run([sys.executable, "-m", "pip", "install", "-q", "--no-index", "--find-links", "/opt/veriftools/wheels", "--target", deps, "atheris"],
+                       capture_output=True)
+        probe = subprocess.run([sys.executable, "-c", "import atheris"], env=env, capture_output=True)
+        if probe.returncode != 0:
+            raise common.HarnessError("atheris cannot be imported (MANIFEST.setup_cmd installs it into /verif/.deps): %s" % probe.stderr.decode()[-300:])
+    outdir = os.path.join(common.VERIF_DIR, "scratch", "c18_afuzz_%d" % os.getpid())
+    shutil.rmtree(outdir, ignore_errors=True)
+    os.makedirs(outdir)
+    procs = []
+    for i in range(common.NPROC):
+        which = ("wild", "wild", "mutated", "wild")[i % 4]
+        log = open(os.path.join(outdir, "log%d.txt" % i), "w")
+        procs.append((i, subprocess.Popen([sys.executable, "-m", "vlib.afuzz", which, str(ctx.seed * 100003 + 500 + i), str(seconds), outdir, str(i)],
+                                          env=env, cwd=common.VERIF_DIR, stdout=log, stderr=subprocess.STDOUT), log))
+    shard = Shard()
+    buckets = {}
+    for i, p, log in procs:
+        try:
+            rc = p.wait(timeout=seconds + 120)
+        except subprocess.TimeoutExpired:
+            p.kill()
+            rc = -9
+        log.close()
+        path = os.path.join(outdir, "shard%d.json" % i)
+        if not os.path.exists(path):
+            shard.notes.append("HARNESS-ERROR: atheris child %d left no result (exit %s): %s" % (i, rc, open(os.path.join(outdir, "log%d.txt" % i)).read()[-400:]))
+            continue
+        d = json.load(open(path))
+        if rc != 0:
+            # the child died outside the guarded compile (e.g. a fatal signal inside the interpreter): report as its own bucket
+            tail = open(os.path.join(outdir, "log%d.txt" % i)).read()[-600:]
+            arts = sorted(glob.glob(os.path.join(outdir, "crash-*")) + glob.glob(os.path.join(outdir, "oom-*")))
+            shard.notes.append("HARNESS-ERROR: atheris child %d ended with exit %s: %s %s" % (i, rc, tail, arts))
+        for k, v in d["counters"].items():
+            shard.event("afuzz:" + k if not k.startswith("outcome:") and k != "evaluations" else k, v)
+        shard.event("afuzz:corpus_files", d["corpus_files"])
+        shard.event("afuzz:evaluations", d["counters"].get("evaluations", 0))
+        for k in d["nontrivial"]:
+            shard.nontriv(k)
+        for s_ in d["samples"][:1]:
+            s_["tier"] = "atheris"
+            shard.sample(s_)
+        for b, info in d["buckets"].items():
+            if b.startswith("harness:"):
+                shard.notes.append("HARNESS-ERROR: generator raised inside fuzz_one_input: %s" % info["msg"])
+                continue
+            cur = buckets.get(b)
+            if cur is None or len(info["source"]) < len(cur["source"]):
+                buckets[b] = info
+    for b, info in buckets.items():
+        info["source"] = minimise(info["source"], info["argv"], b)
+        if b in known:
+            shard.known_hits[b] += 1
+        else:
+            shard.failures.append({"sig": b, "what": "internal exception instead of a diagnosis (coverage-guided tier): %s\nargv=%r\n%s" % (info["msg"], info["argv"], info["source"]),
+                                   "replay": {"source": info["source"], "argv": info["argv"]}})
+    shutil.rmtree(outdir, ignore_errors=True)
+    ctx.total.merge(shard)
+
+
 def main(ctx):
     quick = ctx.tier == "quick"
     known = tuple(ctx.open_keys)
@@ -381,15 +451,17 @@ def main(ctx):
     corpus = sorted(glob.glob(os.path.join(common.REPO, "example", "test", "*.nmfu")))
     ctx.pmap(fixed_worker, [(open(p).read(), a, known) for p in corpus for a in ([], ["-O3", "-feof-support", "-fyield-support"])])
     n = 1200 if quick else 12000
-    stop_at = time.time() + (70 if quick else 900)
+    stop_at = time.time() + (60 if quick else 540)
     ctx.pmap(worker, [(ctx.seed * 100003 + i, n, known, stop_at, ("wild", "wild", "mutated", "typed")[i % 4]) for i in range(common.NPROC)])
+    afuzz_tier(ctx, 25 if quick else 330, known)
     ctx.rule = ("case = (source text from an untyped grammar-based generator [3/4] or from the typed program generator with the lookahead constraint "
                 "relaxed [1/4, half of them with one identifier / operator mutated], option set from a list of odd-but-legal mixes); evaluations = compilations. Non-trivial: source reaching an error path "
                 "(diagnosed), distinct by (stage, error class, message head). All crash buckets (exception type, innermost nmfu function) of a run are "
-                "reported with a greedily minimised source; 20 s alarm per compilation.")
+                "reported with a greedily minimised source; 20 s alarm per compilation. Second tier: the same generators driven by atheris/libFuzzer "
+                "(coverage of nmfu.py as feedback, fuzz_one_input, 16 independent campaigns from an empty corpus; counters afuzz:*).")
     ctx.assumptions = ["diagnosed = lark.LarkError | nmfu.NMFUError | RuntimeError from the command line, with str() rendering",
                        "Hypothesis shrinking is replaced by per-bucket greedy deletion so that one shallow crash does not hide the others"]
-    ctx.required_classes = ["outcome:accepted", "outcome:diagnosed:parse", "outcome:diagnosed:compile", "outcome:diagnosed:syntax"]
+    ctx.required_classes = ["outcome:accepted", "outcome:diagnosed:parse", "outcome:diagnosed:compile", "outcome:diagnosed:syntax", "afuzz:evaluations", "afuzz:corpus_files"]
 
 
 def replay(ctx, data):
